@@ -134,7 +134,7 @@ USER = ("sym", ("USER", "", ""))
 
 
 def reference_schedule():
-    N = "n1 + n2 + pad[n1 + n2]"
+    N = "n1 + n2 + pad(n1 + n2)"
     seq = [
         sym_msg("dom-sep", "r1cs v1"),
         ("star", ("alt", sym_pt("V", "V[*]"), USER)),
